@@ -1,4 +1,4 @@
-"""Thorough tier extras: rule self-test (mutants of the current tree) and type-level witnesses.
+"""Thorough tier extras: rule self-test (mutants of the current tree, a sample of behaviour-preserving edits) and type-level witnesses.
 
 Evidence about the checker only: nothing here decides the exit code except a *missed* mutant whose anchor text still applies,
 which is reported in the evidence (and on stdout) but never as a violation of /repo."""
@@ -26,6 +26,21 @@ def extra(ctx, spec):
                 missed=[r["name"] for r in results if r["status"] in ("MISSED", "error", "does-not-compile")],
                 detail=[dict(name=r["name"], status=r["status"], expects=["%s:%s" % e for e in r["expects"]]) for r in results])
     ctx.notes.append(dict(rule_selftest=summ))
+    # the other direction: a sample of the behaviour-preserving refactorings (selftest/equiv) must leave this check silent
+    if not os.environ.get("VERIF_NO_SELFTEST"):
+        import random
+        from selftest.run import equiv_patches
+        eq = equiv_patches()
+        rnd = random.Random(1000 + ctx.seed)
+        sample = rnd.sample(eq, min(int(os.environ.get("VERIF_EQUIV_SAMPLE", "8")), len(eq)))
+        sample = [dict(m, props=[ctx.prop]) for m in sample]
+        with ThreadPoolExecutor(max_workers=int(os.environ.get("VERIF_JOBS", "8"))) as ex:
+            eres = list(ex.map(run_mutant, sample))
+        fa = [dict(name=r["name"], detail=r["detail"][:300]) for r in eres if r["status"] == "FALSE-ALARM"]
+        ctx.notes.append(dict(equivalent_edit_sample=dict(sampled=[r["name"] for r in eres], silent=sum(r["status"] == "silent" for r in eres),
+                                                          skipped=sum(r["status"] == "skipped" for r in eres), false_alarms=fa)))
+        for r in eres:
+            print("selftest %-10s %s" % (r["status"], r["name"]))
     for r in results:
         print("selftest %-10s %s" % (r["status"], r["name"]))
     # type-level witnesses (E3)
